@@ -22,11 +22,11 @@ LD = 'xtuml.load:ModelLoader'
 
 def run(ctx):
     am = AssocModel(ctx.repo)
-    phases(ctx)
-    partition(ctx)
-    funnel(ctx)
-    keys(ctx, am)
-    new_rule(ctx, am)
+    ctx.guard(phases, ctx)
+    ctx.guard(partition, ctx)
+    ctx.guard(funnel, ctx)
+    ctx.guard(keys, ctx, am)
+    ctx.guard(new_rule, ctx, am)
     ctx.assume('equality of the hash join with the relational join for all value types (== / hash agreement) is not decided')
     return ('Ordering and once-only rules on ModelLoader.populate; isinstance partition of the statement classes vs the grammar '
             'actions; call-graph funnel of all input routes into ModelLoader.input; sibling agreement of compute_lookup_key / '
